@@ -181,9 +181,11 @@ func drawC14Write(t *sim.Tape) *c14WriteCase {
 		k := t.Choose(len(parts) + 1)
 		parts = append(parts[:k], append([][]byte{{}}, parts[k:]...)...)
 	}
-	seq := t.Pick(6, 1, 1, 1, 1, 1, 1, 1)
+	seq := t.Pick(6, 1, 1, 1, 1, 1, 1, 1, 1)
 	// 0 well-formed; 1 first offset != 0; 2 gap; 3 overlap; 4 missing finish; 5 repeated finish / data after finish;
-	// 6 wrong resource name in a later message (allowed to be empty or equal: we use a different one); 7 bad resource name in the first
+	// 6 wrong resource name in a later message (allowed to be empty or equal: we use a different one); 7 bad resource name in the first;
+	// 8 premature finish_write: the client declares the write finished before all data was sent and keeps sending
+	// contiguous data (the data up to the first finish_write is a strict prefix of the content: never acceptable)
 	off := int64(0)
 	acceptable := damage == 0
 	for i, p := range parts {
@@ -235,6 +237,27 @@ func drawC14Write(t *sim.Tape) *c14WriteCase {
 		}
 		cs.Msgs = append(cs.Msgs, extra)
 		cs.ExtraAfter = true
+	case 8:
+		if len(cs.Msgs) >= 2 {
+			k := t.Choose(len(cs.Msgs) - 1)
+			rest := 0
+			for _, m := range cs.Msgs[k+1:] {
+				rest += len(m.Data)
+			}
+			if rest > 0 {
+				cs.Msgs[k].FinishWrite = true
+				if t.Chance(1, 2) {
+					cs.Msgs[len(cs.Msgs)-1].FinishWrite = false
+				}
+				acceptable = false
+				if cs.Zstd {
+					// a truncated frame: whether the decoder notices before the
+					// declared size has been produced depends on the decoder
+					// (an empty object is never read at all)
+					cs.DontCare = true
+				}
+			}
+		}
 	case 7:
 		cs.Msgs[0].ResourceName = []string{"inst/uploads/not-a-uuid/blobs/zz/1", "inst/blobs/abc/3", "", "inst/uploads/11111111-2222-3333-4444-555555555555/blobs/" + d.GetHashString() + "/-1"}[t.Choose(4)]
 		acceptable = false
